@@ -7,7 +7,12 @@
    J cps                     -> import of that JSON text into an empty list: sorted hashes, or E
    H docs # lints # ops      -> history on one IgnoredLints: i l d (ignore), q l d (is_ignored -> y/n),
         r d l.. (remove_ignored -> [k-..]), x / f (export + import into the same / a fresh list), c (clear), n (size),
-        s (switch to the second list), m (export the OTHER list, import that text into the current one) *)
+        s (switch to the second list), m (export the OTHER list, import that text into the current one)
+   E b b ...                 -> the serde_json text of a list with these hashes IN THIS ORDER (each hash in binary, most
+        significant bit first): byte for byte what serde_json::to_string printed (the order is the set's iteration order)
+   Q cps | s e               -> Document::new_plain_english(text) by the MODELLED parser (module E = gen/c14e_model.ml:
+        C02's lexer + passes, Model/C14Edit.v), then LintContext::from_lint for a lint with span [s,e):
+        "idx idx ... ; s,e,TAG,c.c.c ..." (context token indices; per context token span, blanked kind, content), or P *)
 let split c s = List.map String.trim (String.split_on_char c s)
 let ints s = ints_of_line s
 let nats s = List.map nat_of_int (ints s)
@@ -72,6 +77,48 @@ let hash (c : ctx) : n =
   | Some (_, h) -> h
   | None -> let h = n_of_int (!next + 1000) in incr next; table := (c, h) :: !table; h
 
+(* ---- module E (the second extracted model) has its own copies of nat / N ---- *)
+let rec enat_of_int (n : int) : E.nat = if n <= 0 then E.O else E.S (enat_of_int (n - 1))
+let int_of_enat (n : E.nat) : int = let rec go acc = function E.O -> acc | E.S m -> go (acc + 1) m in go 0 n
+let rec epos_of_int (n : int) : E.positive =
+  if n <= 1 then E.XH else if n land 1 = 0 then E.XO (epos_of_int (n lsr 1)) else E.XI (epos_of_int (n lsr 1))
+let en_of_int (n : int) : E.n = if n <= 0 then E.N0 else E.Npos (epos_of_int n)
+let rec int_of_epos = function E.XH -> 1 | E.XO p -> 2 * int_of_epos p | E.XI p -> 2 * int_of_epos p + 1
+let int_of_en = function E.N0 -> 0 | E.Npos p -> int_of_epos p
+let hex_of_en (x : E.n) : string =
+  match x with
+  | E.N0 -> "0"
+  | E.Npos p ->
+      let rec bits p acc = match p with E.XH -> 1 :: acc | E.XO q -> bits q (0 :: acc) | E.XI q -> bits q (1 :: acc) in
+      let bs = bits p [] in
+      let pad = (4 - List.length bs mod 4) mod 4 in
+      let bs = List.init pad (fun _ -> 0) @ bs in
+      let b = Buffer.create 16 in
+      let rec go = function
+        | a :: c :: d :: e :: r -> Buffer.add_char b "0123456789abcdef".[a * 8 + c * 4 + d * 2 + e]; go r
+        | _ -> () in
+      go bs; Buffer.contents b
+let etag (k : E.tkind) : string =
+  match k with
+  | E.KWord None -> "W" | E.KWord (Some _) -> "W!"
+  | E.KPunct c -> "P:" ^ hex_of_en c
+  | E.KQuote None -> "Q" | E.KQuote (Some _) -> "Q!"
+  | E.KDecade -> "D"
+  | E.KNumber (_, _, r, p) -> Printf.sprintf "N:%d:%d" (int_of_en r) (int_of_enat p)
+  | E.KSpace n -> "S:" ^ string_of_int (int_of_enat n)
+  | E.KNewline n -> "L:" ^ string_of_int (int_of_enat n)
+  | E.KEmail -> "E" | E.KUrl -> "U" | E.KHostname -> "H" | E.KUnlintable -> "X"
+  | E.KParagraphBreak -> "B" | E.KRegexish -> "R"
+(* a hash in binary, most significant bit first *)
+let n_of_bits (w : string) : n =
+  let p = ref None in
+  String.iter (fun ch ->
+    let b = (ch = '1') in
+    p := (match !p with
+          | None -> if b then Some XH else None
+          | Some q -> Some (if b then XI q else XO q))) w;
+  match !p with None -> N0 | Some q -> Npos q
+
 let () =
   iter_lines (fun l ->
     if String.length l = 0 then print_newline () else
@@ -98,6 +145,25 @@ let () =
           (match run_import (text_of_line body) with
            | None -> print_endline "E"
            | Some s -> print_endline (String.concat " " (List.sort cmp_dec (List.map dec s))))
+      | 'E' ->
+          let ws = List.filter (fun w -> w <> "") (String.split_on_char ' ' body) in
+          print_endline (string_of_text (run_export (List.map n_of_bits ws)))
+      | 'Q' ->
+          (match split '|' body with
+           | [txt; se] ->
+               (match ints se with
+                | [a; b] ->
+                    let src = List.map en_of_int (ints txt) in
+                    (match E.run_plain_ascii src (enat_of_int a) (enat_of_int b) with
+                     | None -> print_endline "P"
+                     | Some (idx, toks) ->
+                         let i = String.concat " " (List.map (fun k -> string_of_int (int_of_enat k)) idx) in
+                         let t = String.concat " " (List.map (fun (sp, (k, c)) ->
+                             Printf.sprintf "%d,%d,%s,%s" (int_of_enat sp.E.sstart) (int_of_enat sp.E.send) (etag k)
+                               (String.concat "." (List.map (fun x -> string_of_int (int_of_en x)) c))) toks) in
+                         print_endline (String.trim (i ^ " ; " ^ t)))
+                | _ -> print_endline "?")
+           | _ -> print_endline "?")
       | 'H' ->
           (* H doc | lint ; lint ; ... # ops      — lints separated by '#'-free syntax: see below *)
           (match String.split_on_char '#' body with
